@@ -13,7 +13,7 @@ import (
 )
 
 func init() {
-	register(&Rule{ID: "VAL-1", Props: []string{"C13"}, Floor: 7,
+	register(&Rule{ID: "VAL-1", Props: []string{"C13", "C02", "C06"}, Floor: 7,
 		Doc: "each built-in Set parses its parameter itself with the right strconv call (ParseBool / ParseInt(s,10,64) / ParseFloat(s,64)), stores a conversion of result 0, returns the error as is; string types store the parameter unchanged", Run: val1})
 	register(&Rule{ID: "VAL-2", Props: []string{"C13", "C06"}, Floor: 5,
 		Doc: "a failed Set is a no-op: the store to the receiver is dominated by the err==nil edge", Run: val2})
@@ -994,6 +994,56 @@ func val5(c *Ctx) {
 		} else {
 			c.OK(key, fn.Pos(), "\"\" iff DefaultValued and IsDefault(); otherwise String() of the value")
 		}
+	}
+	// the built-in IsDefault(): true exactly for the zero value of the content (false, "", empty list)
+	for _, fn := range c.pkgFuncsDeep("internal/values") {
+		if fn.Name() != "IsDefault" || fn.Signature.Recv() == nil || len(fn.Blocks) == 0 {
+			continue
+		}
+		c.Mark(fn)
+		content := func(v ssa.Value) bool {
+			for {
+				switch x := v.(type) {
+				case *ssa.ChangeType:
+					v = x.X
+					continue
+				case *ssa.Convert:
+					v = x.X
+					continue
+				}
+				break
+			}
+			ld, ok := v.(*ssa.UnOp)
+			return ok && ld.Op == token.MUL && ld.X == ssa.Value(fn.Params[0])
+		}
+		good := true
+		rps := ir.ReturnPoints(fn)
+		for _, r := range rps {
+			v := r.Results[0]
+			okForm := false
+			switch x := v.(type) {
+			case *ssa.UnOp:
+				okForm = x.Op == token.NOT && content(x.X)
+			case *ssa.BinOp:
+				if s, isS := ir.ConstString(x.Y); isS && s == "" && x.Op == token.EQL && content(x.X) {
+					okForm = true
+				}
+				if b, isB := ir.ConstBool(x.Y); isB && !b && x.Op == token.EQL && content(x.X) {
+					okForm = true
+				}
+				if lc, isCall := x.X.(*ssa.Call); isCall {
+					if bi, isBi := lc.Call.Value.(*ssa.Builtin); isBi && bi.Name() == "len" && content(lc.Call.Args[0]) {
+						if k, isK := ir.ConstInt(x.Y); isK && ((x.Op == token.EQL && k == 0) || (x.Op == token.LSS && k == 1) || (x.Op == token.LEQ && k == 0)) {
+							okForm = true
+						}
+					}
+				}
+			}
+			if !okForm {
+				good = false
+			}
+		}
+		c.Check(good && len(rps) == 1, Q(fn), fn.Pos(), "true exactly when the content is the zero value of its type", "IsDefault() is not `content == zero value`: a non-empty default could be hidden from the help, or an empty one shown")
 	}
 }
 
